@@ -157,33 +157,8 @@ def run(repo, chk):
         chk.expect(set(x.strip() for x in txt.split("+")) == {base, "self.options.time.start_clocktime"}, "R-C04-2", "WaterNetworkModel.%s = %s + start_clocktime" % (prop, base.split(".")[1]), loc(f), found=txt)
 
     # ---------------------------------------------------------------- R-C04-3 priority order
-    sites = []
-    for qual in ("WNTRSimulator._compute_next_timestep_and_run_presolve_controls_and_rules", "WNTRSimulator._run_feasibility_controls", "WNTRSimulator._run_postsolve_controls"):
-        fn = repo.func(CORE, qual)
-        chk.fn(fn)
-        for c in calls(fn, attr="sort"):
-            key = [k for k in c.keywords if k.arg == "key"]
-            rev = [k for k in c.keywords if k.arg == "reverse"]
-            ktxt = unparse(key[0].value) if key else ""
-            sites.append((qual.split(".")[1], unparse(c.func.value), ktxt, bool(rev and const(rev[0].value)), c, fn))
-    pri = [s for s in sites if "_priority" in s[2]]
-    for fnname, lst, ktxt, rev, c, fn in pri:
-        okp = re.fullmatch(r"lambda (\w+): \1\[0\]\._priority", ktxt) is not None and not rev
-        chk.expect(okp, "R-C04-3", "%s sorts %s ascending by priority alone (highest priority runs last and wins)" % (fnname, lst), loc(fn, c),
-                   "controls run in list order and later writes overwrite earlier ones", expected="sort(key=lambda i: i[0]._priority)", found="key=%s reverse=%s" % (ktxt, rev))
-    chk.floor("R-C04-3", 6, count=len(pri))
-    chk.expect(len(pri) >= 6, "R-C04-3", "all six control lists are priority-sorted", loc(CORE), found=len(pri))
+    sort_order_rules(repo, chk, "R-C04-3")
     pre = repo.func(CORE, "WNTRSimulator._compute_next_timestep_and_run_presolve_controls_and_rules")
-    psorts = [s for s in sites if s[1] == "presolve_controls_to_run"]
-    okb = len(psorts) == 2 and "_priority" in psorts[0][2] and re.fullmatch(r"lambda (\w+): \1\[1\]", psorts[1][2]) is not None and psorts[1][3] is True \
-        and psorts[0][4].lineno < psorts[1][4].lineno
-    chk.expect(okb, "R-C04-3", "pre-solve controls: priority sort first, then a stable sort by descending back-track (time order, priority preserved among equal instants)", loc(pre),
-               found=[(s[2], s[3]) for s in psorts])
-    # every *_to_run list is executed in list order by a plain for loop / index walk calling run_control_action
-    for fnname, lst, ktxt, rev, c, fn in pri:
-        runs = [x for x in walk(fn) if isinstance(x, ast.For) and unparse(x.iter) == lst and any(last_attr(cc) == "run_control_action" for cc in calls(x))]
-        idx = [cc for cc in calls(fn, attr="run_control_action") if lst in unparse(cc) or unparse(cc.func.value) == "control"]
-        chk.expect(bool(runs) or bool(idx), "R-C04-3", "%s executes %s in list order" % (fnname, lst), loc(fn, c))
 
     # ---------------------------------------------------------------- R-C04-4 rule clock
     rs = repo.func(CORE, "WNTRSimulator.run_sim")
@@ -304,6 +279,103 @@ def run(repo, chk):
     for c in tcalls:
         chk.expect(unparse(c.args[1]) == "run_at_time" and unparse(c.args[4]) == "action_obj", "R-C04-7", "reader passes the parsed time and the action (line %d)" % c.lineno, loc(rcl, c))
 
+
+
+# ------------------------------------------------------------------ effective ordering of the control lists
+SORT_FUNCS = ("WNTRSimulator._compute_next_timestep_and_run_presolve_controls_and_rules", "WNTRSimulator._run_feasibility_controls",
+              "WNTRSimulator._run_postsolve_controls")
+
+
+def _key_components(lam):
+    """lambda i: <expr> -> [(component, 'asc'|'desc')] with component in {priority, backtrack}; None if not recognised."""
+    if not isinstance(lam, ast.Lambda) or len(lam.args.args) != 1:
+        return None
+    v = lam.args.args[0].arg
+
+    def one(e):
+        sign = "asc"
+        while isinstance(e, ast.UnaryOp) and isinstance(e.op, ast.USub):
+            sign = "desc" if sign == "asc" else "asc"
+            e = e.operand
+        t = unparse(e)
+        if t in ("%s[0]._priority" % v, "%s[0].priority" % v, "int(%s[0]._priority)" % v):
+            return ("priority", sign)
+        if t == "%s[1]" % v:
+            return ("backtrack", sign)
+        return None
+    body = lam.body
+    elts = body.elts if isinstance(body, ast.Tuple) else [body]
+    out = [one(e) for e in elts]
+    return None if any(o is None for o in out) else out
+
+
+def effective_orders(fn, listname):
+    """[(effective lexicographic order, sort calls)] per definition of `listname` in fn: successive (stable) sorts of one list
+    value compose, the last sort being the primary key; a re-assignment of the list starts a new group."""
+    defs = sorted(n.lineno for n in walk(fn) if isinstance(n, ast.Assign) and any(isinstance(t, ast.Name) and t.id == listname for t in n.targets))
+    groups = {}
+    for c in calls(fn, attr="sort"):
+        if unparse(c.func.value) != listname:
+            continue
+        key = [k.value for k in c.keywords if k.arg == "key"]
+        rev = [k.value for k in c.keywords if k.arg == "reverse"]
+        comps = _key_components(key[0]) if key else None
+        if comps is None:
+            raise ExtractError("sort key of %s at line %d not recognised: %s" % (listname, c.lineno, unparse(c)))
+        if rev:
+            rv = const(rev[0])
+            if rv not in (True, False):
+                raise ExtractError("sort reverse= of %s at line %d is not a constant" % (listname, c.lineno))
+            if rv:
+                comps = [(n, "desc" if d == "asc" else "asc") for n, d in comps]
+        d = max([l for l in defs if l < c.lineno] or [0])
+        groups.setdefault(d, []).append((c, comps))
+    out = []
+    for d in sorted(groups):
+        seq = groups[d]
+        eff = []
+        for c, comps in reversed(seq):
+            for n, dr in comps:
+                if n not in [x[0] for x in eff]:
+                    eff.append((n, dr))
+        out.append((eff, seq))
+    return out
+
+
+def sort_order_rules(repo, chk, rule):
+    lists = []
+    for qual in SORT_FUNCS:
+        fn = repo.func(CORE, qual)
+        chk.fn(fn)
+        names = []
+        for c in calls(fn, attr="sort"):
+            nm = unparse(c.func.value)
+            if nm not in names:
+                names.append(nm)
+        for nm in names:
+            lists.append((qual.split(".")[1], nm, fn))
+    nsites = 0
+    for fnname, lst, fn in lists:
+      for eff, seq in effective_orders(fn, lst):
+        nsites += 1
+        where = loc(fn, seq[0][0])
+        if lst == "presolve_controls_to_run":
+            want = [("backtrack", "desc"), ("priority", "asc")]
+            chk.expect(eff == want, rule, "pre-solve controls are ordered by time (largest back-track first) and, among equal instants, ascending by priority "
+                       "(highest priority runs last and wins)", where,
+                       "the scheduler rewinds to the first control that changes something and stops: an ordering whose primary key is not the firing "
+                       "instant lets a control crossed later in the step pre-empt one crossed earlier", expected=want, found=eff)
+        else:
+            want = [("priority", "asc")]
+            chk.expect(eff == want, rule, "%s sorts %s (defined at line-group %d) ascending by priority alone (highest priority runs last and wins)" % (
+                fnname, lst, [g[1] for g in effective_orders(fn, lst)].index(seq)), where,
+                       "controls run in list order and later writes overwrite earlier ones", expected=want, found=eff)
+        runs = [x for x in walk(fn) if isinstance(x, ast.For) and unparse(x.iter) == lst and any(last_attr(cc) == "run_control_action" for cc in calls(x))]
+        idx = [cc for cc in calls(fn, attr="run_control_action") if lst in unparse(cc) or unparse(cc.func.value) == "control"]
+        chk.expect(bool(runs) or bool(idx), rule, "%s executes %s (group %d) in list order" % (fnname, lst, [g[1] for g in effective_orders(fn, lst)].index(seq)), where)
+    chk.floor(rule, 12)
+    if nsites < 6:
+        chk.error("%s: only %d sorted control lists found (pre-solve, rules x3, feasibility, post-solve expected)" % (rule, nsites))
 
 WITNESSES = [
     dict(name="simtime-eq-strict", file=CTRL, old="        if self._relation is Comparison.eq and (prev_time < self._threshold and self._threshold <= cur_time):\n            self._backtrack = int(cur_time - self._threshold)\n            return True\n        elif self._relation is Comparison.gt and cur_time > self._threshold:",
